@@ -374,7 +374,7 @@ func harnesses(r *fw.Run) []fw.HarnessSpec {
 // adversarial assembles a BOC field by field; every Choose(…) != 0 is one deviation from a valid bag.
 func adversarial(c *enum.Ctx, seed int) {
 	// base DAG: root(8 bits) -> mid(8 bits) -> leaf(13 bits); root also refs leaf. (3 cells, refs exist at two levels)
-	shape := c.ChooseFree(2) // 0: 3-cell DAG, 1: single cell
+	shape := c.ChooseFree(3) // 0: 3-cell DAG, 1: single cell, 2: no cell at all (the header is all there is)
 	magicI := c.Choose(4)
 	magic := [][]byte{{0xb5, 0xee, 0x9c, 0x72}, {0x68, 0xff, 0x65, 0xf3}, {0xac, 0xc3, 0xa7, 0x28}, {0xde, 0xad, 0xbe, 0xef}}[magicI]
 	generic := magicI == 0 || magicI == 3
@@ -391,14 +391,14 @@ func adversarial(c *enum.Ctx, seed int) {
 			{d1: 1, d2: 2, data: []byte{0x22}, refs: []int{2}},
 			{d1: 0, d2: 3, data: []byte{0xAB, 0xCC}, refs: nil},
 		}
-	} else {
+	} else if shape == 1 {
 		cells = []rawCell{{d1: 0, d2: 2, data: []byte{0x5A}}}
 	}
 	ncells := len(cells)
 
 	// per-cell deviations (cell 0 and the last cell)
 	for _, ci := range []int{0, ncells - 1} {
-		if ci == ncells-1 && ncells == 1 {
+		if ncells == 0 || (ci == ncells-1 && ncells == 1) {
 			break
 		}
 		if v := c.Choose(256); v != 0 {
